@@ -388,6 +388,20 @@ def run(rep, tier):
             rep.violation(sig, what, info)
         if n % max(1, len(ts) // 5) == 0 and "sample" in r:
             rep.sample(r["sample"])
+    # ---- event level: the shipped guardrails library under the event API (vf/props/c02_events.py, E1 explorer)
+    from vf.props import c02_events
+    ev = {"states": 0, "transitions": 0, "traces_validated_against_impl": 0, "checked_utterances": 0, "output_rail_approvals": 0,
+          "output_rail_rejections": 0, "output_rails_aborted_in_flight": 0}
+    for r in par.pmap(c02_events.explore, c02_events.tasks(tier)):
+        for k in ev:
+            ev[k] += r["counts"].get(k, 0)
+        if r["counts"].get("capped"):
+            rep.set("event_level_state_cap_hit", True)
+        for v in r["violations"]:
+            rep.violation(v["signature"], v["what"], dict(v["replay"], part="events"))
+    for k, v in ev.items():
+        rep.set("event_level_" + k, v)
+    rep.set("event_level_bots", list(c02_events.BOTS))
     for k, v in agg.items():
         rep.set(k, v)
     rep.set("evaluations", agg.get("turns", 0))
@@ -398,10 +412,14 @@ def run(rep, tier):
     rep.assumptions += [
         "rails are stub flows following the shape of the shipped self-check output rail; v2 refusal is uttered through `bot say` (guardrails library)",
         "scripted LLM, fake embedding engine",
+        "event level: core.co + guardrails.co + three small bots (an answer the user can interrupt, two answers in a row, a started answer that is stopped) explored by the E1 explorer over all orders of user utterances and action results (rail verdicts True / False, utterance Started / Finished) to depth 12 (quick) / 15 (thorough); every emitted StartUtteranceBotAction with a non-refusal text needs an approving output-rails run of its own",
     ]
 
 
 def replay(rp):
+    if rp.get("part") == "events":
+        from vf.props.c07 import replay as r7
+        return r7(rp)
     v2 = rp["version"] == "2.x"
     order = tuple(rp["order"])
     world = (rw.v2_world(in_order=("in1",), out_order=order, dialog=rp["dialog"], exceptions=rp["exceptions"], library=rp.get("library_rails", False)) if v2
